@@ -95,8 +95,11 @@ def translate_builder(tree, tname="_sg_lookup_table"):
             if not (isinstance(st.target, ast.Tuple) and len(st.target.elts) == 2 and all(isinstance(x, ast.Name) for x in st.target.elts)):
                 _refuse(st, "alias loop target")
             a, hm = (x.id for x in st.target.elts)
-            want = ["hmbare = %s.replace(' ', '')" % hm, "%s.setdefault(%s, %s[hmbare])" % (tname, a, tname)]
-            if [ast.unparse(b) for b in st.body] != want:
+            # the local holding the blank-free symbol may have any name
+            loc = st.body[0].targets[0].id if (st.body and isinstance(st.body[0], ast.Assign) and len(st.body[0].targets) == 1
+                                               and isinstance(st.body[0].targets[0], ast.Name)) else "hmbare"
+            want = ["%s = %s.replace(' ', '')" % (loc, hm), "%s.setdefault(%s, %s[%s])" % (tname, a, tname, loc)]
+            if loc in (a, hm, tname) or [ast.unparse(b) for b in st.body] != want:
                 _refuse(st, "alias loop body is not `hmbare = hm.replace(' ', ''); T.setdefault(a, T[hmbare])`")
             phases.append("PAliases [%s]" % "; ".join("(%s, %s)" % (cstr(x), cstr(y)) for x, y in alias_list[1]))
         elif isinstance(st, ast.Assert) and ast.unparse(st.test) == "None not in %s" % tname:
